@@ -93,15 +93,15 @@ def upstreamChar (c : Nat) : Bool :=
 def revisionChar (c : Nat) : Bool :=
   cisdigit c || cisalpha c || c = 46 || c = 43 || c = 126
 
-/-- `parseInto(result, input)` started from `init` (Go writes through the pointer, so
-    fields that the input does not mention keep their previous content). -/
-def parseInto (init : Version) (input : Bytes) : Res Version :=
+/-- `parseInto(result, input)`: the destination is reset first, so the result is a
+    function of the input alone. -/
+def parse (input : Bytes) : Res Version :=
   let trimmed := Str.trimSpace input
   if trimmed.isEmpty then .error .err else
   if Str.hasSpaceRune trimmed then .error .err else
   let colon := Str.indexByte 58 trimmed
   let epochR : Res Nat := match colon with
-    | none => .ok init.epoch
+    | none => .ok 0
     | some k => match Str.parseInt64 (trimmed.take k) with
       | none => .error .err
       | some e => if e < 0 then .error .err else .ok e.toNat
@@ -111,25 +111,35 @@ def parseInto (init : Version) (input : Bytes) : Res Version :=
     let rest := match colon with | none => trimmed | some k => trimmed.drop (k + 1)
     if rest.isEmpty then .error .err else
     let (up, rev) := match Str.lastIndexByte 45 rest with
-      | none => (rest, init.revision)
+      | none => (rest, [])
       | some h => (rest.take h, rest.drop (h + 1))
+    if up.isEmpty then .error .err else
     if (match up with | [] => false | c :: _ => !cisdigit c) then .error .err else
     if up.any (fun c => !upstreamChar c) then .error .err else
     if rev.any (fun c => !revisionChar c) then .error .err else
     .ok ⟨epoch, up, rev⟩
 
-def zero : Version := ⟨0, [], []⟩
-
-/-- `Parse(input)` -/
-def parse (input : Bytes) : Res Version := parseInto zero input
-
 /-! ### Rendering -/
 
+/-- `StringWithoutEpoch()` -/
 def stringWithoutEpoch (v : Version) : Bytes :=
-  if v.revision.length > 0 then v.upstream ++ [45] ++ v.revision else v.upstream
+  if v.revision.length > 0 || v.upstream.contains 45 then v.upstream ++ [45] ++ v.revision
+  else v.upstream
 
+/-- `String()` -/
 def toString (v : Version) : Bytes :=
-  if v.epoch > 0 then Str.fmtNat v.epoch ++ [58] ++ stringWithoutEpoch v
+  if v.epoch > 0 || v.upstream.contains 58 then Str.fmtNat v.epoch ++ [58] ++ stringWithoutEpoch v
   else stringWithoutEpoch v
+
+/-- `MarshalText` / `MarshalControl` return `String()`; `UnmarshalText` /
+    `UnmarshalControl` are `parse`.  `encoding/json` wraps the text in quotes (no byte
+    of a parser-accepted version needs escaping) and strips them again. -/
+def marshalText (v : Version) : Bytes := toString v
+def jsonEncode (v : Version) : Bytes := [34] ++ toString v ++ [34]
+def jsonDecode (b : Bytes) : Res Version :=
+  match b with
+  | 34 :: rest =>
+    if rest.getLast? = some 34 then parse rest.dropLast else .error .err
+  | _ => .error .err
 
 end GoDebian.Version
